@@ -412,7 +412,13 @@ def basic_index(t, key, ctx=None, wrap=True, site=None):
                 i = i.elem()
             bad = Or(i < -L, i >= L) if O.any_sym(i, L) else (i < -L or i >= L)
             if ctx is not None:
-                ctx.index_check(bad, And(0 <= i, i < L) if O.any_sym(i, L) else (0 <= i < L), t, od, site)
+                if isinstance(i, int) and not isinstance(i, bool) and i < 0:
+                    # a literal negative index is the deliberate idiom "from the end" (numba and numpy wrap it): it must
+                    # name a cell (-L <= i); a computed index that may be negative is an unintended wrap
+                    good = (i >= -L) if not O.is_sym(L) else (L >= -i)
+                else:
+                    good = And(0 <= i, i < L) if O.any_sym(i, L) else (0 <= i < L)
+                ctx.index_check(bad, good, t, od, site)
             elif bad is True:
                 raise IndexError("index %r out of range %r" % (i, L))
             if wrap:
